@@ -1,6 +1,7 @@
 """Driving CircularRecord: operation chains logged for spec/Trace_Record.tla, and replay of the
 transitions TLC enumerated for spec/MC_CircularRecord.tla."""
 import copy
+import json
 import os
 import shutil
 import tempfile
@@ -73,6 +74,48 @@ def chain(rec, ops):
                         "post": project.project(out) if exc == "" else pre})
             if exc == "":
                 cur = out
+        elif kind == "RPEEK":           # a rotation of the current object that is only looked at; the object stays current
+            d, k = op[1], op[2]
+            out, exc = _exc(lambda: (cur >> k) if d == "R" else (cur << k))
+            evs.append({"ev": "Rot", "dir": d, "k": k, "pre": pre, "exc": exc,
+                        "post": project.project(out) if exc == "" else pre, "peek": True})
+            if exc == "" and out is not cur and len(op) > 3 and op[3]:     # ... and the copy handed out is edited by its owner
+                try:
+                    if out.features:
+                        out.features.pop()
+                    out.id = "edited-copy"
+                    out.annotations["note"] = "edited"
+                except Exception:  # noqa
+                    pass
+        elif kind == "EDIT":            # the very same object is edited in place: id, description, a feature, a per-letter track
+            what = op[1]
+            try:
+                from Bio.SeqFeature import FeatureLocation as _FL2, SeqFeature as _SF2
+                n_ = len(cur.seq)
+                if what == "id":
+                    cur.id, cur.name, cur.description = "renamed", "newname", "new description"
+                elif what == "feat":
+                    cur.features.append(_SF2(_FL2(op[2] % max(n_, 1), min(n_, op[2] % max(n_, 1) + 2), strand=1), type="misc_feature",
+                                             id="e%d" % len(cur.features), qualifiers={"label": ["edited-in"]}))
+                elif what == "loc" and cur.features:
+                    a_ = op[2] % max(n_, 1)
+                    cur.features[0].location = _FL2(a_, min(n_, a_ + 3), strand=-1)
+                elif what == "track":
+                    cur.letter_annotations["extra%d" % op[2]] = [(i * 7 + op[2]) % 50 for i in range(n_)]
+                elif what == "delfeat" and cur.features:
+                    del cur.features[op[2] % len(cur.features)]
+            except Exception:  # noqa
+                pass
+            reset = True
+        elif kind == "SLS":             # extended slice: bounds may be absent, the step may be negative
+            a, b, st = op[1], op[2], op[3]
+            res, exc = _exc(lambda: cur[a:b:st])
+            r = {"seq": [], "circular": False, "topo": ""}
+            if exc == "":
+                r = {"seq": dna.enc(res.seq), "circular": isinstance(res, CircularRecord),
+                     "topo": str(res.annotations.get("topology", ""))}
+            enc_ = lambda x: {"none": x is None, "v": 0 if x is None else x}   # noqa: E731
+            evs.append({"ev": "SliceStep", "pre": pre, "a": enc_(a), "b": enc_(b), "step": 1 if st is None else st, "res": r, "exc": exc})
         elif kind == "RC":
             out, exc = _exc(cur.reverse_complement)
             evs.append({"ev": "RevComp", "pre": pre, "exc": exc, "post": project.project(out) if exc == "" else pre})
@@ -123,6 +166,8 @@ def chain(rec, ops):
         if reset and len(evs) > n_before:
             evs[n_before]["reset"] = True      # the object was edited in place: the composed group element starts afresh
             reset = False
+    if evs:
+        evs[0]["ops"] = json.dumps([list(o) for o in ops])     # (not read by the specification: lets a replay re-run the in-place edits too)
     return evs
 
 
